@@ -2569,6 +2569,8 @@ func sccs(names []string, calls map[string][]string) [][]string {
 	return out
 }
 
+var probe bool
+
 func writeIfChanged(path, text string) {
 	if old, err := os.ReadFile(path); err == nil && string(old) == text {
 		return
@@ -2577,7 +2579,15 @@ func writeIfChanged(path, text string) {
 }
 
 // usage: gotrans <repo> <output dir>
+//        gotrans -probe <repo> <package dir> <function> [owned]     try one function outside the listed units (prints the Lean text or the refusal)
 func main() {
+	if len(os.Args) >= 5 && os.Args[1] == "-probe" {
+		units = append(units, unit{"Probe", os.Args[3], "Probe", []string{"Util", "Filter", "Match", "Validate", "Finalize", "Repeat", "Get", "Merge"},
+			[]string{os.Args[4]}, map[string]string{"Document.Clone": "Go.Doc → String → Go.Doc × Option Err", "yaml.Unmarshal": "String → Val × Option Err"},
+			len(os.Args) > 5, true})
+		os.Args = []string{os.Args[0], os.Args[2], ""}
+		probe = true
+	}
 	repo, outDir := "/repo", ""
 	if len(os.Args) > 1 {
 		repo = os.Args[1]
@@ -2825,7 +2835,7 @@ func main() {
 		if outDir != "" {
 			os.MkdirAll(outDir, 0o755)
 			writeIfChanged(filepath.Join(outDir, u.name+".lean"), out.String())
-		} else {
+		} else if !probe || u.name == "Probe" {
 			fmt.Print(out.String())
 		}
 	}
